@@ -13,6 +13,11 @@ def main(tier):
     c = vlib.Check("C10", tier)
     c.phase_proofs()
     c.phase_proofs("HtmlBytes")   # byte-level forms via the lexer round trip (Proofs/HtmlLexRt.v)
+    # the shape clauses as theorems about the parser models (Props/ParserShape.v), and the tie of the block-phase
+    # model those theorems talk about
+    c.phase_proofs("ParserShape")
+    from checks import layerc
+    layerc.blocks(c, tier, 0.2 if tier == "quick" else 0.1)
     n = 3000 if tier == "quick" else 30000
     recs = htmlfam.tie_html(c, n, 400 if tier == "quick" else 4000)
     if recs is None:
